@@ -30,6 +30,7 @@ OUTSIDE = {
  "r18-C05-v1": "a memo inside the injector keyed by struct type: applied by value and by pointer (C04, which does both, reports it without any concurrency)",
  "r18-C07-v1": "needs a handler that registers a route while its own request is being served: every statement takes set-up to be finished before requests arrive",
  "r18-C07-v2": "shows only when a handler writes into Params() of a route without binds: whose map that is was left open by the second review (as r6-C05-v1)",
+ "r18-C17-v2": "a request of method `head` gets no body: whether a method in another letter case is the known method is left open (C07, third review) - an implementation that treats `head` as HEAD everywhere answers the same way; the probe that caught it was withdrawn",
  "r18-C18-v1": "which name a placeholder segment is bound under is decided in the tree: C18 sends its values through one placeholder route (C02 and C01 report it)",
  "r17-C05-v1": "a memo inside the injector keyed by the printed signature: C05 has no two handler types that print alike (C04, whose generator has them, reports it at once, without any concurrency)",
  "r17-C18-v1": "what a regex bind made of several groups captures is decided before any accessor runs: C18 sends its values through a placeholder route (C02, which generates such expressions, reports it)",
